@@ -7,6 +7,8 @@ use std::net::{SocketAddr, IpAddr, Ipv4Addr, Ipv6Addr, SocketAddrV4, SocketAddrV
 use std::time::Duration;
 use std::ops::{Add, Sub};
 use std::cmp::Ordering;
+use std::io;
+use std::sync::Arc;
 use vstd::std_specs::cmp::{PartialOrdSpec, PartialEqSpec, PartialEqSpecImpl};
 use vstd::std_specs::iter::IteratorSpec;
 use vstd::std_specs::hash::*;
